@@ -18,6 +18,7 @@ def run(ctx: Ctx):
     SC.batch_independence(ctx, "S3")
     # equal costs: the DP runs with unit costs and both result forms are rescaled by the common cost exactly once
     SC.equal_cost_shortcut(ctx, "S2")
+    SC.lens_helper_total(ctx, "S3")
     # normalisation divides by the reference length (not the hypothesis length), in both result forms
     f = pkg.func("_string::_string_matching")
     rel = f.module.relname
@@ -130,6 +131,7 @@ def _mutants():
     from selftest.mutate import Mutant as M
     S = "_string.py"
     return [
+        M("first-eos-on-empty-dimension", S, "if tok.size(dim) == 0:\n        return tok.sum(dim, dtype=torch.long)\n", "", "index-reduction-guarded-for-the-empty-dimension"),
         M("scaled-after-padding", S, "return prefix_ers", "return prefix_ers * mult", "prefix-padding-written-last"),
         M("padding-before-norm", S, "prefix_ers = prefix_ers * mult\n        if norm:", "prefix_ers = prefix_ers.masked_fill(torch.arange(prefix_ers.size(0), device=device).unsqueeze(1).ge(hyp_lens + (0 if exclude_last else 1)), padding) * mult\n        if norm:", "prefix-padding-written-last"),
         M("full-prefix-always-dropped", S, ".ge(hyp_lens + (0 if exclude_last else 1))", ".ge(hyp_lens)", "prefix-padding-positions"),
